@@ -114,9 +114,6 @@ class World:
                 return False
             if self.fired is None:
                 return True
-            if pid == 0 and not self.p0 and PLAT in ("openbsd", "macos"):
-                # there "PID 0 is listed" MEANS "PID 0 can be queried" (pids() probes it)
-                return False
             return True
         return self.listed(pid)
 
@@ -159,7 +156,9 @@ def access(fn, kind, pid, survives_zombie=False):
                 W.state = "zombie" if W.zombie else "gone"
             W.raised = make_error(W.err)
             raise W.raised
-    if not W.present(pid) or (pid == W.pid and W.state == "zombie" and not survives_zombie):
+    unlisted0 = (pid == 0 and not W.p0 and W.fired is not None and survives_zombie and PLAT in ("openbsd", "macos"))
+    # OpenBSD / macOS: pids() decides whether PID 0 "is listed" by probing its kinfo record
+    if unlisted0 or not W.present(pid) or (pid == W.pid and W.state == "zombie" and not survives_zombie):
         en = _errno.ENOENT if (kind == "procfs" or CFG["procfs"]) else _errno.ESRCH
         e = OSError(en, os.strerror(en))
         if PLAT == "windows":
